@@ -226,6 +226,10 @@ def gen_history(rng, scen_name=None, window=False):
     return {"events": events, "rx": rx, "commb_only": commb_only}
 
 
+COMMB_FIELDS = {"tas": "tas50", "roll": "roll50", "rtrk": "rtrk50", "trk50": "trk50", "gs50": "gs50", "ias": "ias60", "hdg": "hdg60",
+                "mach": "mach60", "roc60baro": "vr60baro", "roc60ins": "vr60ins"}
+
+
 def canon(rec):
     out = {}
     for k, v in rec.items():
@@ -252,6 +256,7 @@ def play(ctx, hist, lower=False, judge=True):
     import random as _r
     brng = _r.Random(len(ev))
     ever_evicted = set()
+    commb_vals = {}
     prev_tnow = -1e18
     while k < len(ev):
         nb = brng.choice((1, 1, 2, 3, 5, 8)) if bs is None else bs
@@ -361,10 +366,28 @@ def play(ctx, hist, lower=False, judge=True):
                 ctx.hit("cross_nl")
         for addr, b in pre.items():
             ctx.hit("branch_none")
+        # Comm-B derived values must come from a reply addressed to that very aircraft
+        for (t, kind, m, addr, tr) in batch:
+            if kind == "commb":
+                mb = (int(m, 16) >> 24) & ((1 << 56) - 1)
+                own = commb_vals.setdefault(addr, {})
+                for fld, name in COMMB_FIELDS.items():
+                    v = C12.fdec(mb, name)
+                    if v is not None:
+                        own.setdefault(fld, set()).add(round(v, 9))
+        attached = False
         for key, rec in d.acs.items():
-            if rec.get("tas") or rec.get("ias") or rec.get("mach") or rec.get("roll"):
-                ctx.hit("commb_attached")
-                break
+            addr = int(key, 16)
+            for fld in COMMB_FIELDS:
+                v = rec.get(fld)
+                if v is None:
+                    continue
+                attached = True
+                if round(float(v), 9) not in commb_vals.get(addr, {}).get(fld, ()):
+                    ctx.violation("commb-value-not-from-this-aircraft", addr=key, field=fld, value=v, lower=lower)
+                    return None, False
+        if attached:
+            ctx.hit("commb_attached")
     return {k: canon(v) for k, v in d.acs.items()}, True
 
 
